@@ -11,8 +11,8 @@
 
 namespace c04 {
 
-template <typename Char, std::size_t N>
-auto Run<Char, N>::do_modify(std::uint32_t code) -> void
+template <typename Char, std::size_t N, typename Tr>
+auto Run<Char, N, Tr>::do_modify(std::uint32_t code) -> void
 {
     auto const size = mx->size();
     bool alias      = (op.b % 5) == 0;
@@ -29,7 +29,7 @@ auto Run<Char, N>::do_modify(std::uint32_t code) -> void
             cnt = knpos;
             return;
         }
-        cnt = qcount(op.b / 5, avail);
+        cnt = qc(op.b / 5, avail, pos);
         if (std::min(cnt, avail) > room) { cnt = room; }
     };
 
@@ -77,7 +77,7 @@ auto Run<Char, N>::do_modify(std::uint32_t code) -> void
     }
     case ERASE_IDX_N: {
         auto idx = vpos(op.a, size);
-        auto cnt = qcount(op.b, size - idx);
+        auto cnt = qc(op.b, size - idx, idx);
         middle(idx, std::min(cnt, size - idx), 0);
         self(x->erase(idx, cnt), *x);
         mx->erase(idx, cnt);
@@ -139,15 +139,28 @@ auto Run<Char, N>::do_modify(std::uint32_t code) -> void
     case APPEND_RANGE: {
         auto s = srcn(op.a, fitlen(op.b, room));
         auto b = pbuf(s);
-        if ((op.c & 16U) != 0) {
+        switch ((op.c >> 1) % 3) {
+        case 1: {
             // a genuine (non-pointer) forward iterator, range-checked
             using It = vf::it::Fwd<Char const>;
             vf::it::g_out_of_range = false;
             self(x->append(It(b.get(), b.get(), b.end()), It(b.end(), b.get(), b.end())), *x);
             if (vf::it::g_out_of_range) { fail("append(first,last) stepped outside [first,last)"); }
-        } else {
-            self(x->append(b.get(), b.end()), *x);
+            break;
         }
+        case 2: {
+            // a single-pass input iterator draining a FIFO; the std model is fed from an identical second FIFO
+            nt_single_pass = true;
+            Fifo<Char> fe{b.get(), b.end(), 0};
+            Fifo<Char> fm{b.get(), b.end(), 0};
+            self(x->append(FifoIt<Char>(&fe), FifoIt<Char>()), *x);
+            mx->append(FifoIt<Char>(&fm), FifoIt<Char>());
+            if (fe.p != fe.e || fe.pops != fm.pops) { fail("append(single-pass first,last) consumed " + num(fe.pops) + " elements of the source, std consumed " + num(fm.pops)); }
+            break;
+        }
+        default: self(x->append(b.get(), b.end()), *x); break;
+        }
+        if ((op.c >> 1) % 3 == 2) { break; }
         mx->append(s.begin(), s.end());
         break;
     }
@@ -188,7 +201,7 @@ auto Run<Char, N>::do_modify(std::uint32_t code) -> void
         auto s   = srcn(op.a, ovlen(op.b, room) + (op.c >> 4) % 3);
         auto b   = pbuf(s);
         auto pos = vpos(op.a / 8, s.size());
-        auto cnt = code == APPEND_VIEW_POS ? knpos : qcount(op.b / 16, s.size() - pos);
+        auto cnt = code == APPEND_VIEW_POS ? knpos : qc(op.b / 16, s.size() - pos, pos);
         self(code == APPEND_VIEW_POS ? x->append(SV(b.get(), b.n), pos) : x->append(SV(b.get(), b.n), pos, cnt), *x);
         std::min(cnt, s.size() - pos) <= room ? (void)mx->append(SSV(s), pos, cnt) : clamp_event();
         break;
@@ -282,7 +295,7 @@ auto Run<Char, N>::do_modify(std::uint32_t code) -> void
     case REPLACE_IT_CSTR:
     case REPLACE_IT_N_CH: {
         auto pos = vpos(op.a, size);
-        auto cnt = qcount(op.b, size - pos);
+        auto cnt = qc(op.b, size - pos, pos);
         auto n1  = std::min(cnt, size - pos);                // characters that std replaces
         auto n2  = fitlen(op.b / 16, std::min(N, room + n1)); // length of the replacement: the result fits
         if ((op.a / 8) % 3 == 0) { n2 = n1; }
@@ -319,7 +332,7 @@ auto Run<Char, N>::do_modify(std::uint32_t code) -> void
             std::size_t tail = code == REPLACE_POS_N_STR_POS ? 0U : (op.c >> 6) % 3;
             if (head + n2 + tail > N) { tail = 0; }
             if (head + n2 > N) { head = N - n2; }
-            auto full = gen_str<Char>(op.c, head) + s + gen_str<Char>(op.c + 1, tail);
+            auto full = gen_str<M, CI>(op.c, head) + s + gen_str<M, CI>(op.c + 1, tail);
             auto cnt2 = (tail == 0 && (op.b & 16U) != 0) ? knpos : n2;
             E t(full.data(), full.size());
             if (code == REPLACE_POS_N_STR_POS) {
@@ -394,7 +407,7 @@ auto Run<Char, N>::do_modify(std::uint32_t code) -> void
     }
     case SUBSTR: {
         auto pos = vpos(op.a, size);
-        auto cnt = qcount(op.b, size - pos);
+        auto cnt = qc(op.b, size - pos, pos);
         E const& cx = *x;
         adopt("substr(pos,n)", cx.substr(pos, cnt), mx->substr(pos, cnt), *y, *my);
         break;
@@ -412,7 +425,7 @@ auto Run<Char, N>::do_modify(std::uint32_t code) -> void
     case COPY_OUT:
     case COPY_OUT_DEFAULT: {
         auto pos  = code == COPY_OUT ? vpos(op.a, size) : 0;
-        auto cnt  = qcount(op.b, size - pos);
+        auto cnt  = qc(op.b, size - pos, pos);
         auto want = std::min(cnt, size - pos);
         std::unique_ptr<Char[]> d1(new Char[want]); // exact size: one character too many lands in the redzone
         std::unique_ptr<Char[]> d2(new Char[want]);
